@@ -122,7 +122,8 @@ CHECKS = {
         "rule": ("kind own-enum(-bg) = one generated base case (sources may answer under an ended context like any other call - 'lax' - and E may wrap a context error); kind own-case(-bg) = one (base, stop point, fault) execution; kind join-shared-args = Joins built from parts of one argument slice with spare capacity, a Join of a Join, a bystander stream (non-trivial = a Join was given to another Join). non-trivial = the consumer stopped strictly inside the sequence (0 < j, not at End) or a fault was "
                  "actually delivered, i.e. some owned stream is still open when the consumer walks away; distinct = distinct case JSON"),
         "assumptions": ["sk.RecStream call log", "rapid v1.3.0; go1.26.8 testing/synctest"],
-        "jobs": [{"pkg": "c09own", "kinds": ["own-enum", "own-case", "own-enum-bg", "own-case-bg", "join-shared-args", "panic-abandon"], "scale_thorough": 10, "shards_thorough": 16, "replay_reps": 20}],
+        "jobs": [{"pkg": "c09own", "run": "TestOwnRealClock", "kinds": ["own-real-clock"], "scale_thorough": 10, "shards_thorough": 4},
+                 {"pkg": "c09own", "run": "TestJoinSharedArguments|TestOwnershipCaller|TestOwnCaseReplay|TestOwnershipBackground|TestOwnCaseBgReplay|TestPanickingCallback", "kinds": ["own-enum", "own-case", "own-enum-bg", "own-case-bg", "join-shared-args", "panic-abandon"], "scale_thorough": 10, "shards_thorough": 16, "replay_reps": 20}],
     },
     "C20": {
         "level": "exploration",
@@ -288,7 +289,7 @@ RULE_ADDENDA = {
     "C05": " Priorities are ints or []int (pointer-holding); 'bulk' steps push and pop 1000-5000 items (heap and queue).",
     "C06": " Steps also include 'relocate' (the List value is moved to another address), 'bulk' (hundreds of nodes) and reuse of cleared handles; kind list-gc: nodes only reachable through the list survive three GCs with their pointer-holding payload intact.",
     "C07": " Inputs include NaN, negative and huge counts, 1025-2600-item inputs for Chunk/Last; callbacks are counted; results must be independent of their inputs (scribbling); argument slices must be left intact; constructors are read with contexts that end before, between and during calls.",
-    "C09": " Kind panic-abandon: a consumer whose callback panics and whose deferred Close runs: still exactly one Close per stream.",
+    "C09": " Kind own-real-clock (own process, real clock, no bubble: MapStream, Batch, Merge and MapStream over Batch with zero-latency sources; stop after j outputs or read to the end / error; Close within 10 s; then the ownership log of every source; non-trivial = a fault or an early stop). Kind panic-abandon: a consumer whose callback panics and whose deferred Close runs: still exactly one Close per stream.",
     "C10": " Close errors include context.Canceled / DeadlineExceeded themselves; kind pipe-gc (a properly closed sender's error survives GCs and finalizers); the package also runs for GOARCH=386.",
     "C11": " Plans also include sources whose Close takes time, batchSize MaxInt, 'long' streams of hundreds of batches with a bound on batch capacity, and BatchFunc predicates that take 2 x maxWait (old timers); a Next that has not returned after 10 s of active time is a 'stuck' violation. Kind batch-lib-source: Batch over the library's own streams (stream.Chan over a channel that may stay open, FromIterator, a Pipe, a Batch of a Batch): partition, sizes, end, and Close returning at any moment (non-trivial = at least 2 batches, or closed before the end).",
     "C12": " Inputs may be the library's own streams or non-comparable struct values; failing inputs may fail at the same instant with errors of different concrete types; kind stream-merge-wide: 300 inputs that each have to deliver before any of them ends. Also runs for GOARCH=386.",
